@@ -14,6 +14,7 @@ import (
 	sms "github.com/hujm2023/go-sms-protocol"
 	"github.com/hujm2023/go-sms-protocol/cmpp"
 	"github.com/hujm2023/go-sms-protocol/datacoding"
+	gsm7 "github.com/hujm2023/go-sms-protocol/datacoding/gsm7encoding"
 	"github.com/hujm2023/go-sms-protocol/packet"
 	"github.com/hujm2023/go-sms-protocol/smgp"
 	"github.com/hujm2023/go-sms-protocol/smpp"
@@ -358,6 +359,135 @@ func (c *c12ctx) opMisc() {
 	c.res.Count("misc")
 }
 
+// opCodec: everything else that hands the caller a byte slice — the text codecs of every coding (encode and
+// decode), the GSM 7-bit primitives, the batch encoder, the authenticator helpers, the values inside parsed
+// optional-parameter containers — recorded in the same ledger: a later call must not change them, and the
+// caller overwriting what it passed in must not change them either
+func (c *c12ctx) opCodec() {
+	g := c.g
+	texts := []string{"hello world", "héllo wörld ñ", "你好，世界。短信测试", "price 12€ {ok} [x]", "😀 emoji 😀", "abcdefg@", "@"}
+	t := texts[g.Intn(len(texts))]
+	if g.Bool() {
+		t += texts[g.Intn(len(texts))]
+	}
+	keep := func(kind, op string, b []byte) {
+		if b == nil {
+			return
+		}
+		want := append([]byte(nil), b...)
+		c.add(kind, op, func() string {
+			if !bytes.Equal(b, want) {
+				return "a byte slice handed out earlier (" + op + ") differs from its value at return"
+			}
+			return ""
+		}, b)
+	}
+	op := ""
+	switch g.Intn(6) {
+	case 0, 1: // one text codec, three messages in a row (encode, decode): what came first must survive what follows
+		cmppSide := g.Bool()
+		n := g.Pick([]int{0, 1, 3, 8, 99})
+		if cmppSide {
+			n = g.Pick([]int{0, 8, 9, 15})
+		}
+		mk := func(text string) datacoding.Codec {
+			if cmppSide {
+				return datacoding.NewCMPPCodec(datacoding.CMPPDataCoding(n), text)
+			}
+			return datacoding.NewSMPPCodec(datacoding.SMPPDataCoding(n), text)
+		}
+		op = fmt.Sprintf("codec cmpp=%v %d x3", cmppSide, n)
+		for round := 0; round < 3; round++ {
+			text := texts[g.Intn(len(texts))] + string(rune('a'+g.Intn(26)))
+			if round == 0 {
+				text = t
+			}
+			cd := mk(text)
+			if cd == nil {
+				return
+			}
+			var enc, dec []byte
+			var err error
+			if o := Guard(func() { enc, err = cd.Encode() }); o.Panic != "" || err != nil {
+				continue
+			}
+			keep("codec-output-changed-later", fmt.Sprintf("%s: encode #%d", op, round+1), enc)
+			in := append([]byte(nil), enc...)
+			if dcd := mk(string(in)); dcd != nil {
+				if o := Guard(func() { dec, err = dcd.Decode() }); o.Panic == "" && err == nil {
+					keep("codec-output-changed-later", fmt.Sprintf("%s: decode #%d", op, round+1), dec)
+				}
+			}
+		}
+	case 2: // GSM 7-bit primitives
+		op = "gsm7 encode/pack/unpack/decode"
+		var sept, packed, unp, txt []byte
+		var err error
+		if o := Guard(func() { sept, err = gsm7.Encode("price 12 {ok} [x] " + string(rune('a'+g.Intn(26)))) }); o.Panic != "" || err != nil {
+			return
+		}
+		keep("codec-output-changed-later", "gsm7.Encode", sept)
+		in := append([]byte(nil), sept...)
+		Guard(func() { packed = gsm7.Pack(in) })
+		keep("codec-output-changed-later", "gsm7.Pack", packed)
+		scribble(in, 0x11) // the septets were the caller's
+		in2 := append([]byte(nil), packed...)
+		Guard(func() { unp = gsm7.Unpack(in2) })
+		keep("codec-output-changed-later", "gsm7.Unpack", unp)
+		scribble(in2, 0x22)
+		in3 := append([]byte(nil), unp...)
+		Guard(func() { txt, _ = gsm7.Decode(in3) })
+		keep("codec-output-changed-later", "gsm7.Decode", txt)
+		scribble(in3, 0x33)
+	case 3: // the batch encoder
+		op = "batch build"
+		var parts [][]byte
+		Guard(func() {
+			b := sms.NewBatchDataCodingEncoder().Content(t, byte(g.Intn(256)))
+			if g.Bool() {
+				parts, _, _ = b.Protocol(sms.CMPP).DataCodings([]datacoding.ProtocolDataCoding{datacoding.CMPPDataCoding(0), datacoding.CMPPDataCoding(15), datacoding.CMPPDataCoding(8)}).Build(context.Background())
+			} else {
+				parts, _, _ = b.Protocol(sms.SMPP).DataCodings([]datacoding.ProtocolDataCoding{datacoding.SMPPDataCoding(0), datacoding.SMPPDataCoding(1), datacoding.SMPPDataCoding(3), datacoding.SMPPDataCoding(8)}).Build(context.Background())
+			}
+		})
+		for i, p := range parts {
+			keep("parts-changed-later", fmt.Sprintf("batch build part %d", i+1), p)
+		}
+	case 4: // authenticators
+		op = "authenticators"
+		status := []byte{0, 0, 0, byte(g.Intn(4))}
+		var a1, a2 []byte
+		Guard(func() { a1 = cmpp.GenConnectAuth("900001", "secret"+string(rune('a'+g.Intn(26))), "0930123456") })
+		keep("authenticator-changed-later", "cmpp.GenConnectAuth", a1)
+		Guard(func() { a2 = cmpp.GenConnectRespAuthISMG(status, string(a1), "secret") })
+		keep("authenticator-changed-later", "cmpp.GenConnectRespAuthISMG", a2)
+		scribble(status, 0x44)
+	default: // values inside parsed optional-parameter containers
+		op = "parsed option values"
+		val := g.Bytes(1 + g.Intn(9))
+		opts := smgp.Options{}
+		opts.Add(smgp.NewOption(smgp.Tag(1+g.Intn(9)), append([]byte(nil), val...)))
+		raw := opts.Serialize()
+		var po smgp.Options
+		Guard(func() { po, _ = smgp.ParseOptions(raw) })
+		for tag, o := range po {
+			keep("option-value-changed-later", fmt.Sprintf("smgp.ParseOptions value of tag %d", tag), o.Value())
+		}
+		tl := smpp.NewTLV(uint16(0x0204+g.Intn(3)), append([]byte(nil), val...))
+		raw2 := tl.Bytes()
+		var pt smpp.TLVs
+		Guard(func() { pt, _ = smpp.ReadTLVs(packet.NewPacketReader(raw2)) })
+		for tag, v := range pt {
+			keep("option-value-changed-later", fmt.Sprintf("smpp.ReadTLVs value of tag %d", tag), v.Value())
+		}
+		scribble(raw, 0x55)
+		scribble(raw2, 0x66)
+	}
+	c.hist = append(c.hist, op)
+	c.res.Eval(fmt.Sprintf("%s#%d", op, len(c.hist)), true)
+	c.res.Count("codec")
+}
+
 // frames handed out by the codec are views of the connection buffer; a PDU decoded from such a view
 // must survive the next read (which refills the buffer)
 func (c *c12ctx) opFrameThenDecode(name string, img []byte, cname string) {
@@ -392,7 +522,7 @@ func (c *c12ctx) opFrameThenDecode(name string, img []byte, cname string) {
 }
 
 func runC12(res *Result, d *Driver, g *Rng, tier string) {
-	res.Rule = "histories of IDecode / IEncode / String / content split / pooled helpers / TLV serialisation calls, any mix of the 58 PDU types (records as C01, images as C11 incl. optional parameters), the caller overwriting every input buffer right after each decode, one time in three the output it was handed, and now and then the byte slices inside an earlier decoded PDU (it owns them); a ledger re-checks earlier results (deep copy taken at return): the newest 12 and a random 48 after every call, all of them every 20 calls and at the end; pointer-overlap test of every []byte reachable from a decoded PDU against the input buffer; frames taken from the zero-copy extractor, decoded, then the connection buffer refilled; non-trivial = distinct (call, position in history)"
+	res.Rule = "histories of IDecode / IEncode / String / content split / pooled helpers / TLV serialisation / text codec (every coding, both directions) / GSM 7-bit primitive / batch encoder / authenticator / option-parser calls, any mix of the 58 PDU types (records as C01, images as C11 incl. optional parameters), the caller overwriting every input buffer right after each decode, one time in three the output it was handed, and now and then the byte slices inside an earlier decoded PDU (it owns them); a ledger re-checks earlier results (deep copy taken at return): the newest 12 and a random 48 after every call, all of them every 20 calls and at the end; pointer-overlap test of every []byte reachable from a decoded PDU against the input buffer; frames taken from the zero-copy extractor, decoded, then the connection buffer refilled; non-trivial = distinct (call, position in history)"
 	if err := loadLayouts(layoutsPath); err != nil {
 		res.Disagreements = append(res.Disagreements, Violation{Class: "driver-failure", What: err.Error()})
 		return
@@ -452,10 +582,13 @@ func runC12(res *Result, d *Driver, g *Rng, tier string) {
 			case k < 8:
 				c.opString(name, r)
 			case k < 9:
-				if g.Bool() {
+				switch g.Intn(4) {
+				case 0:
 					c.opSplit()
-				} else {
+				case 1:
 					c.opMisc()
+				default:
+					c.opCodec()
 				}
 			default:
 				pkg := pkgOfName(name)
